@@ -2,6 +2,7 @@ package checks
 
 import (
 	"bytes"
+	"log/slog"
 	"regexp"
 	"strings"
 	"text/template"
@@ -60,8 +61,22 @@ func (tr TemplatedRegexp) Expand(rule parser.Rule) (*regexp.Regexp, error) {
 	return regexp.Compile(buf.String())
 }
 
+// neverMatches is returned by MustExpand when a pattern cannot be expanded.
+var neverMatches = regexp.MustCompile(`[^\s\S]`)
+
+// MustExpand never returns nil: a pattern that was valid when the config
+// was loaded can still expand to an invalid regexp for a specific rule,
+// for example when a label value used in it contains `(`.
 func (tr TemplatedRegexp) MustExpand(rule parser.Rule) *regexp.Regexp {
-	re, _ := tr.Expand(rule)
+	re, err := tr.Expand(rule)
+	if err != nil {
+		slog.Warn(
+			"Failed to expand a regexp template, it will not match anything",
+			slog.String("regexp", tr.original),
+			slog.Any("err", err),
+		)
+		return neverMatches
+	}
 	return re
 }
 
